@@ -289,3 +289,5 @@ Print Assumptions C04_memo2d_true_transparent_answering.
 Print Assumptions C04_memo2d_true_transparent_answering_callable.
 Print Assumptions C04_memo2d_recursive_transparent_answering.
 Print Assumptions C04_memo2d_recursive_transparent_answering_callable.
+From CPL Require Import gen.GenFuns_C04 GenProps.GenFunsEquivC04 GenProps.C04Src. (* source tie: gen/GenFuns_C04.v is regenerated from ca_functions2d.py on every run *)
+Theorem C04_source_tie : forall (St : Type) (rule : rule2 St) (s : St) (m : memo_table) (n : nbhd2) (c : (nat * nat)%type) (t : nat), get_memoized2 rule (s, m) n c t = src_get_memoized memo_key rule s n c t m. Proof. exact C04_source_translation_agrees. Qed. Print Assumptions C04_source_tie.
